@@ -70,3 +70,19 @@ Example C04_rank_probe :
               VTup [([97], vint 1); ([98], vint 3); ([114], vint 2)];
               VTup [([97], vint 2); ([98], vint 2); ([114], vint 0)]]).
 Proof. vm_compute. reflexivity. Qed.
+
+(* the operators of the expression language evaluate to these functions of the operands' values *)
+Theorem C04_operators_are_these_functions :
+  forall fuel rho a b la lb names n,
+    eval fuel rho a = Ok (D (VSet la)) ->
+    (forall op, eval fuel rho b = Ok (D (VSet lb)) ->
+                eval (S fuel) rho (EJoin op a b) = (do r <- join_data op la lb; Ok (D r))) /\
+    eval (S fuel) rho (ENest false names n a) = (do r <- nest_data names n la; Ok (D r)) /\
+    eval (S fuel) rho (ESingleNest n a) = (do r <- single_nest_data n la; Ok (D r)).
+Proof.
+  intros fuel rho a b la lb names n Ha. repeat split.
+  - intros op Hb. apply join_operator_is_join_data; assumption.
+  - apply nest_operator_is_nest_data, Ha.
+  - apply single_nest_operator_is_single_nest_data, Ha.
+Qed.
+Print Assumptions C04_operators_are_these_functions.
